@@ -64,6 +64,11 @@ def run(chk):
             yield {a + b: [1, {b + a: None}], b: True, a: {'k' + b: 1.5, 'k' + a: -0.0}}
         yield {'a': [1, 2.5, 'x', None, True, False, {}, []], 'Z': {'b': {}, 'a': []}, '': 0, '€': 'euro', '\r': 'cr', '1': 1, '10': 10, '2': 2}
         yield [[[[]]], {'x': {'y': {'z': [1e21, 1e-7, 10**21, 2**53 + 1]}}}]
+        # every JSON kind as the WHOLE document (bare scalars and empty containers), and the same kinds one level down
+        for v in (True, False, None, 0, 1, -1, 1.0, 0.0, -0.0, 1.5, '', 'true', '1', [], {}, [True], [False], [None], {'a': True}, {'a': False}, [1, True, 1.0], [0, False, 0.0, -0.0]): yield v
+        # one container OBJECT occurring several times in a document (aliasing is not a cycle): lists of strings, of numbers, mixed, empty; dictionaries
+        for shared in (['tcp', 'http'], ['a'], [1, 2], [1, 'a', None], [], {'k': 'v'}, {}, [['x']], [{'k': ['y']}]):
+            yield {'a': shared, 'b': shared}; yield [shared, shared, shared]; yield {'a': shared, 'b': {'c': shared, 'd': [shared]}}
         for bad_ in (float('nan'), float('inf'), -float('inf')):
             yield bad_; yield [bad_]; yield {'a': bad_}; yield {'a': [1, {'b': bad_}]}
 
